@@ -105,6 +105,8 @@ func decodeAll(c *core.Case, family string, t reflect.Type, doc []byte, prefill 
 	tv, ok := mk()
 	call(c, family+"|Unmarshal", w, func() { json.Unmarshal(append([]byte(nil), doc...), tv.Interface()) })
 	chk(family+"|Unmarshal", ok)
+	// what was decoded must be a value of the type: encoding it again follows every pointer
+	call(c, family+"|Marshal-of-decoded", w, func() { json.Marshal(tv.Interface()) })
 	flags := json.ParseFlags(c.Rng.Intn(512))
 	tv, ok = mk()
 	call(c, family+"|Parse", w, func() { json.Parse(append([]byte(nil), doc...), tv.Interface(), flags) })
@@ -557,7 +559,7 @@ func runCyclicTargets(c *core.Case) {
 func init() {
 	core.Register(&core.Monitor{
 		Prop:    "C06",
-		Rule:    "decode-fuzz: arbitrary bytes, token soups, truncated and mutated documents into guarded targets (struct{Pre [4]uint64; V T; Post [4]uint64} with canary words) of generated and library types, zero or pre-filled, through Unmarshal, Parse with a random 9-bit flag word, Decoder.Decode (chunked reader ending in an error; UseNumber/DisallowUnknownFields/ZeroCopy), Valid, Tokenizer and invalid targets. encode-values: generated values incl. pointer-shaped corners by value, by pointer, as map value, in a one-element array and inside interfaces through Marshal/Append/Encoder/MarshalIndent. cycles: 20 cyclic shapes through pointers, slices, maps, empty and non-empty interfaces, recursive named slice/map/array types must return an error. cyclic-targets: decoding into interfaces that hold pointers to each other (cycles of 1-3, through a field, slice elements, map values). deep-encode / deep-decode: nesting of 10 .. 10^6 levels (3*10^6 for documents) in 5 shapes each. A recovered panic, a canary change, a process death attributed by the journal (SIGSEGV, stack overflow, checkptr, ASan report, out of memory) or a CPU-time budget overrun confirmed in a fresh process is a violation; no functional comparison. Distinct by (type, document) / shape.",
+		Rule:    "decode-fuzz: arbitrary bytes, token soups, truncated and mutated documents into guarded targets (struct{Pre [4]uint64; V T; Post [4]uint64} with canary words) of generated and library types, zero or pre-filled, through Unmarshal, Parse with a random 9-bit flag word, Decoder.Decode (chunked reader ending in an error; UseNumber/DisallowUnknownFields/ZeroCopy), Valid, Tokenizer and invalid targets; whatever Unmarshal left in the target is encoded again (every pointer in it is followed). encode-values: generated values incl. pointer-shaped corners by value, by pointer, as map value, in a one-element array and inside interfaces through Marshal/Append/Encoder/MarshalIndent. cycles: 20 cyclic shapes through pointers, slices, maps, empty and non-empty interfaces, recursive named slice/map/array types must return an error. cyclic-targets: decoding into interfaces that hold pointers to each other (cycles of 1-3, through a field, slice elements, map values). deep-encode / deep-decode: nesting of 10 .. 10^6 levels (3*10^6 for documents) in 5 shapes each. A recovered panic, a canary change, a process death attributed by the journal (SIGSEGV, stack overflow, checkptr, ASan report, out of memory) or a CPU-time budget overrun confirmed in a fresh process is a violation; no functional comparison. Distinct by (type, document) / shape.",
 		Trusted: []string{"the supervisor's crash attribution (journal + stderr signature)", "Go race detector's checkptr and AddressSanitizer for the unsafe paths", "process CPU-time clock for bounded progress"},
 		Subs: []core.Sub{
 			{Name: "decode-fuzz", N: core.Const(24000, 1000000), Run: runDecodeFuzz},
